@@ -152,6 +152,8 @@ def run(F, rep):
     g5_rule(F, rep)
     # ------------------------------------------------------------ G6: no second, case-sensitive letter table
     g6_rule(F, rep)
+    # ------------------------------------------------------------ G7: a single multi-sample file is scanned like the first of several files
+    g7_rule(F, rep)
 
 
 NAME_TEMPLATES = [(b, e) for b in ("s1", "asm.v1", "GCA_000001405.15", "sample-a_b") for e in ("fa", "fasta", "fna", "fas", "faa", "txt", None)]
@@ -179,8 +181,8 @@ def g5_rule(F, rep):
                 if s_["k"] == "assign" and s_["pl"]["l"] == 0 and not s_["pl"]["p"]:
                     e = strip_tags(ex.rvalue(s_["rv"]))
                     for x in walk(e):
-                        if isinstance(x, tuple) and x[0] == "call" and not re.search(r"Path::(file_stem|file_name)$", x[1]) and \
-                                contains(x, lambda y: isinstance(y, tuple) and y[0] == "call" and re.search(r"Path::(file_stem|file_name)$", y[1])):
+                        if isinstance(x, tuple) and x[0] == "call" and not re.search(r"Path::(file_stem|file_name|file_prefix)$", x[1]) and \
+                                contains(x, lambda y: isinstance(y, tuple) and y[0] == "call" and re.search(r"Path::(file_stem|file_name|file_prefix)$", y[1])):
                             cands.append(x)
         # keep the outermost derivations only
         outer = [c for c in cands if not any(c is not d and contains(d, lambda y: y == c) for d in cands)]
@@ -202,6 +204,19 @@ def g5_rule(F, rep):
                     break
                 if a != b2:
                     bad.append("%s -> %r but %s.gz -> %r" % (_bn(plain), a, _bn(plain), b2))
+            # different inputs must stay different samples: file names that differ in front of the final extension give different names
+            clash = []
+            if undec is None:
+                try:
+                    for a_, b_ in (("yeast.v1.fa", "yeast.v2.fa"), ("asm.1.fna.gz", "asm.2.fna.gz"), ("GCA_1.1.fa", "GCA_1.2.fa"), ("s.a.b.fasta", "s.a.c.fasta")):
+                        na, nb = strint.eval_tree(F, e, {pname: "/in/" + a_}), strint.eval_tree(F, e, {pname: "/in/" + b_})
+                        if na == nb:
+                            clash.append("%s and %s both give %r" % (a_, b_, na))
+                except (Undecidable, strint.Panic) as x:
+                    undec = str(x)
+            rep.ob("C19-G5", "%s: file names that differ before the final extension give different sample names (inputs are not merged)" % f.key.split("::", 1)[-1],
+                   undec is None and not clash, detail=("undecidable construct: %s" % undec) if undec else ("; ".join(clash) if clash else "4 pairs evaluated"),
+                   site="%s:%d" % (f.file, f.line_lo), key="C19-G5 | %s | names stay distinct" % f.key)
             rep.ob("C19-G5", "%s: the sample name derived from the file name is the same for NAME and NAME.gz" % f.key.split("::", 1)[-1],
                    undec is None and not bad,
                    detail=("undecidable construct: %s" % undec) if undec else ("; ".join(bad[:4]) + (" (%d of %d file names)" % (len(bad), len(NAME_TEMPLATES)) if bad else "%d file names x {plain, .gz} evaluated: %s" % (len(NAME_TEMPLATES), fmt(e)[:160]))),
@@ -250,3 +265,29 @@ def g6_rule(F, rep):
     rep.ob("C19-G6", "no case-sensitive letter table besides the input table (%d letter dispatches in live code, %d in unused helpers)" % (nlive, nctrl), True, how="trivial",
            key="C19-G6 | summary")
     rep.floor("C19-G6", nctrl + nlive, 1, "dispatches on letter constants seen by the matcher (Base::from_char control)")
+
+
+def g7_rule(F, rep):
+    """One PanSN file and one file per sample must give the same archive, so the splitter scan has to look at the same
+    sequences in both layouts: the first *sample*.  In create_archive the single-input arm must call the first-sample variant
+    of the scan, and the all-contigs variant must be reachable only when there are several input files."""
+    ca = F.funcs.get("ragc::create_archive")
+    if not rep.floor("C19-G7", 1 if ca else 0, 1, "ragc::create_archive"):
+        return
+    ex = Exprs(ca)
+    first = [(bi, t) for bi, t in ca.calls() if not t.get("indirect") and t["callee"].endswith("determine_splitters_streaming_first_sample")]
+    allc = [(bi, t) for bi, t in ca.calls() if not t.get("indirect") and t["callee"].endswith("determine_splitters_streaming")]
+    def one_input(bi, want):
+        for c in dominating_conds(ca, bi, ex):
+            sc = fmt(c[0])
+            tv = cond_bool(c[1], c[2])
+            if re.fullmatch(r"Eq\((1, \w+::len\(inputs\)|\w+::len\(inputs\), 1)\)", sc) and tv is want:
+                return True
+        return False
+    ok1 = bool(first) and all(one_input(bi, True) for bi, _ in first)
+    ok2 = all(one_input(bi, False) for bi, _ in allc)
+    rep.ob("C19-G7", "create scans a single input file with the first-sample variant of the splitter scan (same sequences as the first of several files)", ok1,
+           detail="%d call(s) of the first-sample scan, guarded by inputs.len() == 1: %s" % (len(first), ok1), site=site_of(ca, first[0][1]) if first else "%s:%d" % (ca.file, ca.line_lo),
+           key="C19-G7 | create_archive | single file uses first-sample scan")
+    rep.ob("C19-G7", "the all-contigs scan of the first file is used only when there are several input files", ok2,
+           detail="%d call(s)" % len(allc), site=site_of(ca, allc[0][1]) if allc else "%s:%d" % (ca.file, ca.line_lo), key="C19-G7 | create_archive | all-contigs scan only for several files")
